@@ -13,12 +13,13 @@ def both(quick, extra_thorough=()):
 PROPS = {
     'C01': dict(
         title='ISI-profile equals the ISI-distance definition', level='proof',
-        groups=both(['isi_py.P', 'isi_pyx.P', 'lemmas.cover', 'nonempty.P'], ['isi_py.B']),
+        groups=both(['isi_py.P', 'isi_pyx.P', 'lemmas.cover', 'nonempty.P', 'reconcile.B', 'plumb.forms', 'plumb.reconcile'], ['isi_py.B']),
         technique='inductive VCs (loop invariant + ghost cover indices) generated from the Python AST of the real kernel, discharged by z3/cvc5',
         explanation='inductive proof of isi_distance_python and of the extracted isi_profile_cython against the C01 definition '
                     '(breakpoints = edges + interior spikes, value = |v1-v2|/max(v1,v2,MRTS) of the covering ISIs with the edge rules, '
                     'all returned cells finite); lemma: covering intervals => no spike strictly inside a segment; '
-                    'get_spikes_non_empty (empty train -> one interval over the recording) is checked loop-free',
+                    'get_spikes_non_empty (empty train -> one interval over the recording) proved loop-free; input preparation (reconcile_spike_trains) and '
+                    'the wrapper glue (kernel receives the reconciled trains, edges and MRTS; profile object built from the kernel result) bounded',
     ),
     'C02': dict(
         title='SPIKE-profile equals the SPIKE-distance definition', level='other',
@@ -29,16 +30,19 @@ PROPS = {
     ),
     'C03': dict(
         title='SPIKE-Sync profile marks exactly the mutually coincident spikes', level='other',
-        groups=both(['get_tau_py.P', 'get_tau_pyx.P', 'sync_py.B', 'sync_pyx.B', 'single_py.B', 'single_pyx.B', 'syncval_pyx.B', 'lemmas.window']),
+        groups=both(['get_tau_py.P', 'get_tau_pyx.P', 'sync_py.P', 'sync_pyx.P', 'lemmas.window', 'sync_py.B', 'sync_pyx.B', 'single_py.B', 'single_pyx.B', 'syncval_pyx.B']),
         technique='window routine proved (loop-free, all inputs); scan kernels: bounded symbolic execution against the pairwise definition',
-        explanation='get_tau proved equal to the window of the statement for all trains and indices; profile / per-spike indicator kernels '
-                    'checked against the pairwise coincidence definition incl. mutual one-to-one counting, for all real inputs of the stated sizes',
+        explanation='get_tau proved equal to the window of the statement for all trains and indices; the profile scan (py + extracted pyx) '
+                    'proved inductively in adjacent form (an event is marked iff coincident with the preceding or the following spike of the other train), '
+                    'lemmas: coincident pairs are adjacent, adjacent form = pairwise definition, one-to-one; additionally profile / per-spike indicator / '
+                    'single-pass kernels checked against the pairwise definition incl. mutual counting for all real inputs of the stated sizes',
     ),
     'C04': dict(
         title='Order / directionality sign convention', level='other',
-        groups=both(['order_py.B', 'order_pyx.B', 'dir_py.B', 'dir_pyx.B', 'orderval_pyx.B', 'dirval_pyx.B', 'plumb.forms', 'plumb.degenerate']),
+        groups=both(['order_py.P', 'order_pyx.P', 'dir_py.P', 'dir_pyx.P', 'lemmas.window', 'order_py.B', 'order_pyx.B', 'dir_py.B', 'dir_pyx.B', 'orderval_pyx.B', 'dirval_pyx.B', 'plumb.forms', 'plumb.degenerate']),
         technique='bounded symbolic execution of the scan kernels against the pairwise leader/follower definition; wrappers executed on formal terms',
-        explanation='kernels vs pairwise definition (sign, zero for simultaneous / non-coincident, swap negates); values / matrix / synfire '
+        explanation='order-profile and directionality scans (py + extracted pyx) proved inductively in adjacent form with the leader/follower sign, lemmas bridge to the pairwise definition; '
+                    'additionally kernels vs pairwise definition (sign, zero for simultaneous / non-coincident, swap negates) bounded; values / matrix / synfire '
                     'plumbing (1/(N-1) normalisation, antisymmetric matrix, pooled ratio) on formal terms for every index selection',
     ),
     'C05': dict(
@@ -94,7 +98,7 @@ PROPS = {
     'C12': dict(
         title='Compiled and fallback backends agree', level='other',
         groups=both(['isi_py.P', 'isi_pyx.P', 'gmd_py.P', 'gmd_prof_pyx.P', 'gmd_dist_pyx.P', 'dist_at_t_py.P', 'dist_at_t_prof_pyx.P', 'dist_at_t_dist_pyx.P',
-                     'get_tau_py.P', 'get_tau_pyx.P', 'addpwc_py.P', 'addpwc_pyx.P', 'spike_py.B', 'spike_pyx.B', 'sync_py.B', 'sync_pyx.B',
+                     'get_tau_py.P', 'get_tau_pyx.P', 'addpwc_py.P', 'addpwc_pyx.P', 'sync_py.P', 'sync_pyx.P', 'order_py.P', 'order_pyx.P', 'dir_py.P', 'dir_pyx.P', 'spike_py.B', 'spike_pyx.B', 'sync_py.B', 'sync_pyx.B',
                      'single_py.B', 'single_pyx.B', 'order_py.B', 'order_pyx.B', 'dir_py.B', 'dir_pyx.B', 'addpwl_py.B', 'addpwl_pyx.B',
                      'adddisc_py.B', 'adddisc_pyx.B', 'isidist_pyx.B', 'spikedist_pyx.B', 'syncval_pyx.B', 'orderval_pyx.B', 'dirval_pyx.B']),
         technique='both members of every routine pair verified against the same functional contract (P where proved, B otherwise); .pyx as mechanically extracted text',
@@ -118,7 +122,7 @@ PROPS = {
     ),
     'C15': dict(
         title="MRTS only de-emphasises small time scales; 'auto' = pooled ISI threshold", level='other',
-        groups=both(['lemmas.mrts', 'plumb.auto', 'isilen.B', 'thresh.B', 'mrts_isi.B', 'mrts_spike.B', 'mrts_sync.B']),
+        groups=both(['lemmas.mrts', 'lemmas.window', 'get_tau_py.P', 'get_tau_pyx.P', 'dist_at_t_py.P', 'isi_py.P', 'sync_py.P', 'plumb.auto', 'isilen.B', 'thresh.B', 'mrts_isi.B', 'mrts_spike.B', 'mrts_sync.B']),
         technique='scalar lemmas over the spec functions + bounded two-run symbolic execution + wrappers on formal terms',
         explanation='MRTS=0 reduces the specs to the non-adaptive ones, ratio / D non-increasing and window non-decreasing in MRTS (L); '
                     "kernels re-run with two thresholds (bounded); 'auto' is replaced by the pooled threshold of the call's trains on every entry point; "
@@ -126,7 +130,7 @@ PROPS = {
     ),
     'C16': dict(
         title='max_tau is an upper bound on the coincidence window', level='other',
-        groups=both(['get_tau_py.P', 'get_tau_pyx.P', 'lemmas.window', 'sync_py.B', 'order_py.B', 'dir_py.B', 'single_py.B', 'sync_pyx.B', 'maxtau_sync.B', 'maxtau_single.B']),
+        groups=both(['get_tau_py.P', 'get_tau_pyx.P', 'lemmas.window', 'sync_py.P', 'order_py.P', 'sync_py.B', 'order_py.B', 'dir_py.B', 'single_py.B', 'sync_pyx.B', 'maxtau_sync.B', 'maxtau_single.B', 'plumb.forms', 'plumb.filter']),
         technique='window routine proved for all inputs (loop-free VCs); scan kernels bounded',
         explanation='get_tau returns the C03 window capped at half the limit it is given (= max_tau); monotone in the limit (L); '
                     'coincident pairs closer than max_tau in every scan kernel (bounded)',
